@@ -159,7 +159,8 @@ Definition value_list (v : cval) : list cell := match v with VS c => [c] | VL l 
      REq a b       = lambda a, b: 1 if a == b else 0
      RIn a l       = lambda a: 1 if a in l else 0          (used by C06)
    a missing argument is a TypeError (kwargs_support passes only what the row has) *)
-Inductive rowfn := RCoalesce (a b : colname) | RIsNone (a : colname) | RIdent (a : colname) | REq (a b : colname).
+Inductive rowfn := RCoalesce (a b : colname) | RIsNone (a : colname) | RIdent (a : colname) | REq (a b : colname)
+  | RIn (a : colname) (l : list cell).      (* a closure / bound method capturing the list l:  lambda a: a in l *)
 Definition cbool (b : bool) : cell := CNum false (if b then 2 else 0).
 Definition eval_rowfn (f : rowfn) (r : record) : res cell :=
   match f with
@@ -168,6 +169,7 @@ Definition eval_rowfn (f : rowfn) (r : record) : res cell :=
   | RIsNone a => match aget a r with Some x => Ok (cbool (is_none x)) | None => Err EType end
   | RIdent a => match aget a r with Some x => Ok x | None => Err EType end
   | REq a b => match aget a r, aget b r with Some x, Some y => Ok (cbool (py_eq x y)) | _, _ => Err EType end
+  | RIn a l => match aget a r with Some x => Ok (cbool (py_in x l)) | None => Err EType end
   end.
 (* column functions for d.do: first argument is the cell, further arguments are named columns
      FIsNone = lambda v: 1 if v is None else 0;  FNone = lambda v: None;  FIdent = lambda v: v
@@ -405,7 +407,8 @@ Inductive op :=
 | OConcat (dst : nat) (srcs : list nat)                  (* one source: returns the operand itself *)
 | OAdd (dst r : nat) (a : addarg)                        (* d + None, d + 0: return d itself *)
 | OCopy (dst r : nat)
-| ORange (dst r : nat) (a b s : Z).                       (* d[range(a, b, s)] = d[list(range(a, b, s))] *)
+| ORange (dst r : nat) (a b s : Z)
+| OSub (dst r : nat) (ks : list colname).                 (* d - key, d - [keys]: a copy without these columns, absent ones ignored *)                       (* d[range(a, b, s)] = d[list(range(a, b, s))] *)
 
 Inductive out :=
 | OutOk | OutErr (e : err) | OutRec (r : record) | OutCells (l : list cell)
@@ -472,6 +475,9 @@ Definition inplace (s : gstate T) (r : nat) (x : res T) : gstate T * out :=
 Definition alias (s : gstate T) (dst r : nat) : gstate T * out := (mkS (upd dst (ptr s r) (regs s)) (heap s), OutOk).
 Definition query {A} (s : gstate T) (f : A -> out) (x : res A) : gstate T * out :=
   (s, match x with inl a => f a | inr e => OutErr e end).
+(* dictattr.__sub__: copy, then delete every key that is there *)
+Definition sub_keys (t : T) (ks : list colname) : T :=
+  fold_left (fun acc k => match t_del O acc k with inl t' => t' | inr _ => acc end) ks t.
 Definition step (s : gstate T) (o : op) : gstate T * out :=
   match o with
   | ONewRecords dst rs => fresh s dst (t_new_records O (map (@dict_of cell) rs))
@@ -509,6 +515,7 @@ Definition step (s : gstate T) (o : op) : gstate T * out :=
   | OCopy dst r => fresh s dst (Ok (rd s r))
   | ORange dst r a b st =>          (* range(a, b, 0) raises ValueError before the table is touched *)
       fresh s dst (if Z.eqb st 0 then Err EValue else t_ints O (rd s r) (py_range a b st))
+  | OSub dst r ks => fresh s dst (Ok (sub_keys (rd s r) ks))
   end.
 (* a history: the final state and every output, oldest first *)
 Definition run (s : gstate T) (ops : list op) : gstate T * list out :=
